@@ -403,6 +403,9 @@ class Engine:
 
     def fresh_of_type(self, st, ty, base='v', depth=0):
         ty = ty.strip()
+        for rx, mk in self.type_models:          # harness-supplied models of types take precedence over the generic ones
+            if rx.search(ty):
+                return mk(self, st, base, ty)
         if ty == 'bool':
             return self.fresh_bool(base)
         if ty in INT_TYPES:
